@@ -262,6 +262,10 @@ pub struct Monitors {
 
 pub struct World {
     pub persister: Arc<dyn Persist>,
+    /// while set, every store write fails
+    pub fail: Arc<std::sync::atomic::AtomicBool>,
+    /// the policy tag demoted to a warning in this world
+    pub demoted: Option<String>,
     /// manual clock shared by all incarnations of the node (keysend approvals expire after 60 s)
     pub clock: Arc<ManualClock>,
     pub seed: [u8; 32],
@@ -290,8 +294,35 @@ fn config() -> NodeConfig {
     }
 }
 
-fn services(persister: Arc<dyn Persist>, clock: Arc<ManualClock>) -> NodeServices {
-    let policy = make_default_simple_policy(Network::Testnet);
+/// policy tags that none of C01/C02/C03 rests on: each may be demoted to a warning by a deployment's policy
+/// filter (`SimplePolicy.filter`) without relaxing revoke-after-validate, sign/revoke exclusion, the counterparty
+/// window, the revocation point match or the chain check.  (`policy-commitment-retry-same` is what C03's
+/// "re-signs only identical" rests on: with it demoted only that one monitor is disarmed.)
+pub const DEMOTABLE_TAGS: [&str; 16] = [
+    "policy-commitment-retry-same",
+    "policy-commitment-fee-range",
+    "policy-commitment-htlc-count-limit",
+    "policy-commitment-htlc-inflight-limit",
+    "policy-commitment-htlc-cltv-range",
+    "policy-commitment-outputs-trimmed",
+    "policy-commitment-first-no-htlcs",
+    "policy-commitment-initial-funding-value",
+    "policy-commitment-payment-velocity",
+    "policy-commitment-spends-active-utxo",
+    "policy-commitment",
+    "policy-routing-balanced",
+    "policy-mutual-value-matches-commitment",
+    "policy-mutual-no-pending-htlcs",
+    "policy-mutual-fee-range",
+    "policy-mutual-destination-allowlisted",
+];
+
+fn services(persister: Arc<dyn Persist>, clock: Arc<ManualClock>, demoted: &Option<String>) -> NodeServices {
+    let mut policy = make_default_simple_policy(Network::Testnet);
+    if let Some(tag) = demoted {
+        use lightning_signer::policy::filter::{FilterResult, FilterRule, PolicyFilter};
+        policy.filter = PolicyFilter { rules: vec![FilterRule { tag: tag.clone(), is_prefix: false, action: FilterResult::Warn }] };
+    }
     NodeServices {
         validator_factory: Arc::new(SimpleValidatorFactory::new_with_policy(policy)),
         starting_time_factory: make_genesis_starting_time_factory(Network::Testnet),
@@ -346,11 +377,19 @@ pub fn cp_point_id(n: u64, kind: u64) -> u64 {
 
 impl World {
     pub fn new() -> World {
-        let persister: Arc<dyn Persist> = Arc::new(KVVPersister(MemoryKVVStore::new([3u8; 16]), JsonFormat));
+        World::new_cfg(None)
+    }
+
+    /// `demoted`: one policy tag that the deployment's filter turns into a warning (None = default filter)
+    pub fn new_cfg(demoted: Option<String>) -> World {
+        let fail = Arc::new(std::sync::atomic::AtomicBool::new(false));
+        let store = Arc::new(KVVPersister(MemoryKVVStore::new([3u8; 16]), JsonFormat));
+        // every write goes through a tap that can be told to fail (injected store failure)
+        let persister: Arc<dyn Persist> = Arc::new(crate::props::tap::Tap::with_fail(store, fail.clone()));
         let seed = [7u8; 32];
         let cfg = config();
         let clock = Arc::new(ManualClock::new(std::time::Duration::from_secs(1_700_000_000)));
-        let node = Arc::new(Node::new(cfg, &seed, vec![], services(persister.clone(), clock.clone())));
+        let node = Arc::new(Node::new(cfg, &seed, vec![], services(persister.clone(), clock.clone(), &demoted)));
         persister.new_node(&node.get_id(), &cfg, &*node.get_state()).unwrap();
         persister.new_tracker(&node.get_id(), &node.get_tracker()).unwrap();
         node.add_allowlist(&[]).unwrap();
@@ -359,6 +398,8 @@ impl World {
         let setup = make_test_channel_setup();
         let mut w = World {
             persister,
+            fail,
+            demoted,
             clock,
             seed,
             node,
@@ -493,6 +534,11 @@ impl World {
 
     // ---- monitors -------------------------------------------------------------------------
     fn violation(&mut self, kind: &str, desc: String) {
+        // the one monitor that rests on a demotable tag
+        if kind == "c03-resign-changed" && self.demoted.as_deref() == Some("policy-commitment-retry-same") {
+            self.tags.insert("disarmed:c03-resign-changed".into());
+            return;
+        }
         self.mon.violations.push(Violation { kind: kind.into(), desc, at: self.step });
     }
 
@@ -930,6 +976,26 @@ impl World {
             self.step += 1;
             return "dead".into();
         }
+        if kind == "filter" {
+            self.step += 1;
+            return "ok".into();
+        }
+        if kind == "failw" {
+            // the store refuses every write during this one request
+            let inner = t[1..].join(" ");
+            self.fail.store(true, std::sync::atomic::Ordering::Relaxed);
+            let line = self.apply(&inner);
+            self.fail.store(false, std::sync::atomic::Ordering::Relaxed);
+            if line.starts_with("ok") {
+                // acknowledged although nothing could be written: the reply counts, the run goes on
+                self.tags.insert("failw:acknowledged".into());
+            } else {
+                // refused: memory may be ahead of the store; the process has to be restarted
+                self.tags.insert("failw:refused".into());
+                self.dead = true;
+            }
+            return format!("failw {}", line);
+        }
         let ready = self.is_ready();
         let res: Result<String, String> = match catch_unwind(AssertUnwindSafe(|| -> Result<String, String> {
             match kind {
@@ -969,7 +1035,7 @@ impl World {
                 }
                 "restart" => {
                     let (node_id, entry) = self.persister.get_nodes().unwrap().into_iter().next().unwrap();
-                    let n = Node::restore_node(&node_id, entry, &self.seed, services(self.persister.clone(), self.clock.clone())).map_err(|e| class_of(&e))?;
+                    let n = Node::restore_node(&node_id, entry, &self.seed, services(self.persister.clone(), self.clock.clone(), &self.demoted)).map_err(|e| class_of(&e))?;
                     self.node = n;
                     self.dead = false;
                     Ok("ok".into())
